@@ -83,7 +83,7 @@ class Headers:
         for f, t in self.text.items():
             t = strip_comments(t)
             t = re.sub(r"^[ \t]*#.*$", "", t, flags=re.M)
-            for m in re.finditer(r"XRL_EXTERN\s+([^;{]+?)\s*\(([^;]*?)\)\s*;", t, re.S):
+            for m in re.finditer(r"XRL_(?:EXTERN|DEPRECATED)\s+([^;{]+?)\s*\(([^;]*?)\)\s*;", t, re.S):
                 head, args = m.group(1), m.group(2)
                 hm = re.match(r"(.*?)([A-Za-z_][A-Za-z0-9_]*)$", head.strip(), re.S)
                 ret, name = " ".join(hm.group(1).split()), hm.group(2)
